@@ -1,6 +1,7 @@
 package main
 
 import (
+	"os"
 	"fmt"
 	"go/constant"
 	"go/token"
@@ -655,6 +656,9 @@ func (fe *FuncEnc) appendOp(v ssa.Value, c *ssa.CallCommon, st *State, args []st
 	for _, cell := range fe.eng.leafCells(sl.Elem()) {
 		as := arrSort(cell.sort)
 		if !fe.recording && !fe.relevant[cell.varName] {
+			if os.Getenv("VERIF_DEBUG_APPEND") != "" {
+				fmt.Fprintln(os.Stderr, "append skipped (irrelevant):", cell.varName, fe.fnName())
+			}
 			continue
 		}
 		old := fe.heapGetQuiet(st, cell.varName, as)
